@@ -39,7 +39,7 @@ type callsScen struct {
 func callsFieldTypes(fk string) (string, string) {
 	m := map[string][2]string{"i2i": {"int", "int"}, "i2s": {"int", "string"}, "ptrA": {"*A", "*A2"}, "ptrB": {"*B", "*B2"},
 		"slcA": {"[]A", "[]A2"}, "slcB": {"[]B", "[]B2"}, "valB": {"B", "B2"},
-		"s2s": {"string", "string"}, "mapB": {"map[string]B", "map[string]B2"}, "mapK": {"map[int]int", "map[string]int"}, "mapV": {"map[string]int", "map[string]string"}, "mapKV": {"map[int]int", "map[string]string"}, "p2vB": {"*B", "B2"}, "p2s": {"*int", "string"}, "mth": {"int", "int"}, "i2ps": {"int", "*string"}, "nI2s": {"NI", "string"}, "nL": {"LP", "[]int"}}
+		"s2s": {"string", "string"}, "mapB": {"map[string]B", "map[string]B2"}, "mapK": {"map[int]int", "map[string]int"}, "mapV": {"map[string]int", "map[string]string"}, "mapKV": {"map[int]int", "map[string]string"}, "p2vB": {"*B", "B2"}, "p2s": {"*int", "string"}, "mth": {"int", "int"}, "i2ps": {"int", "*string"}, "pp2s": {"*int", "*string"}, "mapVS": {"map[string][]int", "map[string][]string"}, "nI2s": {"NI", "string"}, "nL": {"LP", "[]int"}}
 	return m[fk][0], m[fk][1]
 }
 
